@@ -19,7 +19,7 @@ except Exception:  # pragma: no cover
 
 META = {
     "technique": "Lean 4 proof (exact fluctuation-dissipation identity for all dt, tau, T, m; Gaussian invariance of the O-U half step via Mathlib probability; geometric variance contraction; NVE limit; T=0 only removes energy; padding atoms at rest) + correspondence of c1, c2 and the thermostat update with the real code + variance / mean-temperature probes with 5-sigma bands from the theorem's variance",
-    "level_text": "Theorems over the reals: c1^2 sigma^2 + c2^2 = sigma^2 with sigma^2 = T/m * VEL_SCALE^2 for every dt, tau, T, m >= 0; if V ~ N(0, sigma^2) and xi ~ N(0,1) are independent then c1 V + c2 xi ~ N(0, sigma^2) (Maxwell-Boltzmann law invariant); the variance recursion contracts to sigma^2 at rate c1^2; at (c1,c2) = (1,0) the step is velocity Verlet; T = 0 gives c2 = 0 and |c1 v| <= |v|; mass-inverse 0 gives c2 = 0. With VEL_SCALE^2*KES*TS = 1 (regenerated constants) the stationary kinetic temperature under the 3N count equals the target. Tied to the code by comparing c1, c2 (real initialize) and the thermostat update (noise recovered by re-seeding) with the compiled Float model over dt/tau in [1e-4, 10] and all element masses, and by statistical probes on the real update.",
+    "level_text": "Theorems over the reals: c1^2 sigma^2 + c2^2 = sigma^2 with sigma^2 = T/m * VEL_SCALE^2 for every dt, tau, T, m >= 0; if V ~ N(0, sigma^2) and xi ~ N(0,1) are independent then c1 V + c2 xi ~ N(0, sigma^2) (Maxwell-Boltzmann law invariant); the variance recursion contracts to sigma^2 at rate c1^2; at (c1,c2) = (1,0) the step is velocity Verlet; T = 0 gives c2 = 0 and |c1 v| <= |v|; mass-inverse 0 gives c2 = 0. With VEL_SCALE^2*KES*TS = 1 (regenerated constants) the stationary kinetic temperature under the 3N count equals the target. Tied to the code by comparing c1, c2 (real initialize) and the thermostat update (noise recovered by re-seeding) with the compiled Float model over dt/tau in [1e-4, 10] and all element masses, and by statistical probes on the real update. Translator tie: thermostat, velocity Verlet, thermostat in every thermostatted engine (StepTie.langevin_is_langevinStep, xl_damped_is_wrapped); c1, c2 of initialize are the model's (ScalarTie); thermostatted engines count 3N degrees of freedom (ThermoTie).",
     "level_note": "Trusted: Lean kernel; harness; torch.randn is standard normal and independent (hypothesis of the invariance theorem). Partial: ergodicity of the full dynamics is not provable here; long-run mean temperature is validated within 5 sigma of the estimator.",
     "design_ref": "DESIGN.md section 5 C12",
 }
